@@ -53,7 +53,10 @@ RULE = ("each run is either (a) a branch-isolation scenario: 1-4 branches of 1-3
         " their chain, contexts of class lena.context.Context, one Variable and one UpdateContext"
         " instance shared by all branches, flows of bare user objects (hashable, mutable) and"
         " 1-tuples of them; accumulators VectorizeStore, Graph and SplitIntoBins with two-result"
-        " cells; results of one call must share nothing either.")
+        " cells; results of one call must share nothing either."
+        " Also: Source branches, numbers of a float subclass with mutable attributes, a value"
+        " that cannot be deep-copied (refusing it loudly is accepted), contexts holding a set and"
+        " a user object, FillRequest with buffer_output and requests abandoned after one result.")
 REAL = ["lena.core.Split (run, fill, compute, request)", "lena.flow.Zip", "lena.core.FillComputeSeq",
         "lena.core.FillRequestSeq", "lena.core.FillRequest", "lena.core.Sequence",
         "lena.variables.Variable", "lena.context.UpdateContext", "lena.output.MakeFilename",
@@ -85,7 +88,8 @@ EXPECTED_PROBES = ["split-run", "split-fill-compute", "split-fill-request", "zip
                    "acc-empty-context-yielded", "acc-wrapper", "scribble-then-compute",
                    "compute-twice-no-fill", "makefilename-in-two-branches", "nested-split-or-zip-branch",
                    "several-results-per-compute", "bare-event-objects-as-values",
-                   "one-updatecontext-instance-in-two-branches"]
+                   "one-updatecontext-instance-in-two-branches", "uncopyable-value-in-the-flow",
+                   "uncopyable-block-refused"]
 
 _TIER = ["quick"]
 
@@ -394,8 +398,8 @@ def gen_split(tape, sc):
     sc.n = tape.draw(8, "flowlen")
     # what the values are: (data list, context) pairs, or bare event objects of a user's class
     # (hashable, mutable), or 1-tuples of them
-    sc.shape = tape.weighted([(6, "pair"), (1, "object"), (1, "object-tuple"), (1, "number-subclass")],
-                             "value-shape")
+    sc.shape = tape.weighted([(6, "pair"), (1, "object"), (1, "object-tuple"), (1, "number-subclass"),
+                              (1, "uncopyable")], "value-shape")
     sc.branches = []
     for b in range(sc.nb):
         br = Spec()
@@ -411,11 +415,11 @@ def gen_split(tape, sc):
             m = tape.choice(MUTATORS, "mutator")
             if m == "count" and br.kind == "seq":
                 m = "uctx"
-            if sc.shape != "pair":
+            if sc.shape not in ("pair", "uncopyable"):
                 m = "uobj"
             br.muts.append(m)
         br.acc = tape.choice(["store", "sum", "count", "hist"], "acc") if br.kind != "seq" else None
-        if sc.shape != "pair" and br.acc is not None:
+        if sc.shape not in ("pair", "uncopyable") and br.acc is not None:
             br.acc = "store"
         br.slice = None
         if sc.driver == "run" and br.kind != "seq" and tape.chance(1, 3, "slice"):
@@ -448,6 +452,13 @@ def make_flow(n, ctx_class=dict, shape="pair"):
         return [(Ev(i),) for i in range(n)]
     if shape == "number-subclass":
         return [Weighted(i) for i in range(n)]
+    if shape == "uncopyable":
+        # the context of one value holds something that cannot be deep-copied (an open handle, a
+        # generator): a Split that must copy it may refuse the block, it may not share it
+        flow = [([i], ctx_class({"src": {"i": i}, "tags": []})) for i in range(n)]
+        if n >= 2:
+            flow[1][1]["handle"] = (x for x in ())
+        return flow
     return [([i], ctx_class({"src": {"i": i}, "tags": []})) for i in range(n)]
 
 
@@ -577,7 +588,10 @@ def run_split(tape, res, sc):
                "zip-compute": "zip-compute", "zip-request": "zip-request"}[d])
     if sc.nb >= 3:
         res.probe("three-or-more-branches")
-    if sc.shape != "pair":
+    if sc.shape == "uncopyable":
+        res.probe("uncopyable-value-in-the-flow")
+        res.say("  the context of value 1 holds a generator (it cannot be deep-copied)")
+    elif sc.shape != "pair":
         res.probe("bare-event-objects-as-values")
         res.say("  the values are %s" % {"object": "bare event objects", "object-tuple": "1-tuples of event objects",
                                          "number-subclass": "numbers of a float subclass with mutable attributes"}[sc.shape])
@@ -617,6 +631,10 @@ def run_split(tape, res, sc):
         out, e2 = guarded(lambda b=b, st=st: drive(sc, [b], make_flow(sc.n, sc.ctx_class, sc.shape), st), "alone")
         log.ev("op", "alone", b)
         alone.append((out, e2))
+    if err is not None and sc.shape == "uncopyable" and isinstance(err, TypeError):
+        # the block could not be copied and was refused loudly: nothing was shared
+        res.probe("uncopyable-block-refused")
+        return
     if err is not None:
         # a branch that fails alone in the same way is not an interference
         same = [e2 for _, e2 in alone if e2 is not None and type(e2) is type(err)]
@@ -695,7 +713,7 @@ def run_split(tape, res, sc):
 
 ACCS = ["Sum", "DSum", "Mean", "MeanSum", "VarianceMeanCount", "Vectorize", "Count", "Histogram",
         "SplitIntoBins", "VectorizeStore", "Graph", "SplitIntoBinsMulti"]
-WRAPPERS = ["bare", "bare", "FillComputeSeq", "Split", "Zip", "FillRequest"]
+WRAPPERS = ["bare", "bare", "FillComputeSeq", "Split", "Zip", "FillRequest", "FillRequestOut"]
 
 
 def make_acc(name):
@@ -743,6 +761,9 @@ def make_wrapped(sc):
         return lena.core.Split([acc, make_acc(sc.acc2)], bufsize=sc.bufsize), "compute"
     if w == "Zip":
         return lena.flow.Zip([acc, make_acc(sc.acc2)]), "compute"
+    if w == "FillRequestOut":
+        # results of complete blocks wait in the adapter until they are requested
+        return lena.core.FillRequest(acc, bufsize=1, reset=False, buffer_output=True), "request"
     return lena.core.FillRequest(acc, bufsize=1, reset=False, buffer_input=True), "request"
 
 
@@ -754,13 +775,14 @@ def gen_acc(tape, sc):
         sc.acc2 = sc.acc
     sc.bufsize = tape.choice([1000, 1, None], "bufsize")
     sc.ctx_context_class = tape.chance(1, 4, "context-class")
-    sc.exotic_ctx = tape.chance(1, 3, "set-and-object-in-context")
+    # (not in lena.context.Context objects, whose representation is JSON)
+    sc.exotic_ctx = (not sc.ctx_context_class) and tape.chance(1, 3, "set-and-object-in-context")
     sc.ops = []
     nfill = 0
     ncomp = 0
     while len(sc.ops) < 12:
         op = tape.weighted([(1, "end"), (5, "fill"), (4, "compute"), (3, "scribble-result"),
-                            (1, "scribble-filled")], "op")
+                            (1, "scribble-filled"), (1, "partial")], "op")
         if op == "end":
             if sc.ops or tape.draw(4, "really-empty") == 0:
                 break
@@ -770,8 +792,8 @@ def gen_acc(tape, sc):
             x = tape.choice([1, 3, 0.5, 5, 2], "x")
             sc.ops.append(("fill", x, ck))
             nfill += 1
-        elif op == "compute":
-            sc.ops.append(("compute",))
+        elif op in ("compute", "partial"):
+            sc.ops.append((op,))
             ncomp += 1
         elif op == "scribble-result":
             if ncomp:
@@ -818,8 +840,18 @@ def run_acc(tape, res, sc):
     last_was_compute = False
     serial = 0
 
-    def call(obj):
+    def call(obj, partial=False):
         try:
+            if partial:
+                # the consumer takes one result and abandons the rest
+                g = iter(getattr(obj, method)())
+                got = []
+                for r in g:
+                    got.append(r)
+                    break
+                if hasattr(g, "close"):
+                    g.close()
+                return ("ok", got)
             return ("ok", list(getattr(obj, method)()))
         except Exception as e:  # noqa: BLE001
             if exception_origin(e) != "lena":
@@ -844,10 +876,12 @@ def run_acc(tape, res, sc):
                 return
             filled.append(v)
             last_was_compute = False
-        elif op[0] == "compute":
-            log.ev("op", method)
-            out = call(el)
-            tout = call(twin)
+        elif op[0] in ("compute", "partial"):
+            log.ev("op", method if op[0] == "compute" else method + "-abandoned-after-one-result")
+            if op[0] == "partial":
+                res.fault("partial-compute-abandoned")
+            out = call(el, op[0] == "partial")
+            tout = call(twin, op[0] == "partial")
             if last_was_compute:
                 res.probe("compute-twice-no-fill")
             last_was_compute = True
